@@ -26,7 +26,8 @@ ASSUMPTIONS = ["MemoryFS and the native filesystem list what was created"]
 MONITORS = ["simfile_directory", "pack_listing", "opendir", "openpack", "loader_options_recorder"]
 REQUIRED = ["mixed_case_extension", "near_miss_name", "bare_extension_name", "duplicate_sm", "duplicate_ssc", "both_kinds",
             "both_kinds_plus_duplicate", "nested_dir_with_simfile", "empty_dir", "loose_simfile_in_pack", "stray_text_file",
-            "utf16_file", "native", "memory", "ignore_duplicate"]
+            "utf16_file", "native", "memory", "ignore_duplicate", "sub_directory_named_like_a_simfile",
+            "song_directory_named_like_an_audio_or_image_file", "pack_with_simfiles_in_different_encodings"]
 
 SM_NAMES = ["song.sm", "Song.SM", "x.Sm", "a b.sm", ".sm", "chart.old.sm", "z.sM"]
 SSC_NAMES = ["song.ssc", "Song.SSC", "x.sSc", "a b.ssc", ".ssc", "chart.sm.ssc", "z.SsC"]
@@ -66,7 +67,9 @@ def gen_dir(rng, depth, content_mode):
         d["files"][name] = "other"
     if depth > 0:
         for i in range(rng.choice([0, 1, 2, 3]) if depth > 1 else rng.choice([0, 0, 1])):
-            name = rng.choice(["Song %d" % i, "sub%d" % i, "Pack.%d" % i, "songs.sm.d%d" % i, "empty%d" % i])
+            name = rng.choice(["Song %d" % i, "sub%d" % i, "Pack.%d" % i, "songs.sm.d%d" % i, "empty%d" % i,
+                               # directories named like files: audio, image and simfile extensions
+                               "Night Drive %d.ogg" % i, "Bonus%d.PNG" % i, "demo%d.sm" % i, "old%d.SSC" % i])
             if name.startswith("empty"):
                 d["dirs"][name] = {"dirs": {}, "files": {}}
             else:
@@ -78,14 +81,22 @@ def cases(ctx):
     rng = ctx.rng
     n = ctx.split(2500 if ctx.tier == "quick" else 16 * 6000)
     for i in range(n):
-        mode = rng.choice(["clean", "clean", "mixed_stray", "utf16"])
+        mode = rng.choice(["clean", "clean", "mixed_stray", "utf16", "mixed_enc", "mixed_enc"])
         if mode == "clean":
             cm = lambda r: "clean"
+        elif mode == "mixed_enc":
+            # non-ASCII titles, some files in a legacy code page and some in UTF-8, side by side in one pack
+            cm = lambda r: r.choice(["clean", "cp1252", "cp1252", "utf8na", "utf8na", "cp932"])
         elif mode == "mixed_stray":
             cm = lambda r: r.choice(["clean", "stray", "stray"])
         else:
             cm = lambda r: "utf16"
         yield {"tree": gen_dir(rng, 2, cm), "fs": rng.choice(["native", "memory"]), "mode": mode}
+
+
+# content kind -> (text appended to the title, encoding of the file). "Caf\u00e9" in UTF-8 also decodes under cp1252
+# (as mojibake), the cp1252 and cp932 bytes are not valid UTF-8, and the cp932 bytes also decode under cp1252.
+NON_ASCII = {"cp1252": (" Caf\u00e9", "cp1252"), "utf8na": (" Caf\u00e9", "utf-8"), "cp932": (" \u30c6\u30b9\u30c8", "cp932")}
 
 
 def kind_of(name):
@@ -103,6 +114,8 @@ def content(kind, fname, tag):
     text = f"{head}#TITLE:{tag};\n#ARTIST:a;\n"
     if kind == "stray":
         text = f"{head}#TITLE:{tag};\nstray text here\n#ARTIST:a;\n"
+    if kind in NON_ASCII:
+        return text.replace(tag, tag + NON_ASCII[kind][0]).encode(NON_ASCII[kind][1])
     if kind == "utf16":
         return ("﻿" + text).encode("utf-16-le")
     if kind == "other":
@@ -274,6 +287,13 @@ def observe(ctx, d, sms, sscs):
         ctx.feat("stray_text_file")
     if any(v == "utf16" for v in d["files"].values()):
         ctx.feat("utf16_file")
+    if any(kind_of(n) for n in d["dirs"]):
+        ctx.feat("sub_directory_named_like_a_simfile")
+    if any(n.lower().endswith((".ogg", ".png")) and any(kind_of(x) for x in s["files"]) for n, s in d["dirs"].items()):
+        ctx.feat("song_directory_named_like_an_audio_or_image_file")
+    encs = {v for s in d["dirs"].values() for n, v in s["files"].items() if kind_of(n) and v in NON_ASCII}
+    if len(encs) >= 2:
+        ctx.feat("pack_with_simfiles_in_different_encodings")
 
 
 def expected_load(d, pref_name, opts, rel):
@@ -288,6 +308,21 @@ def expected_load(d, pref_name, opts, rel):
         return ("not-claimed",)
     if kind == "stray" and opts.get("strict", True):
         return ("raise", "MSDParserError")
+    if kind in NON_ASCII:
+        suffix, enc = NON_ASCII[kind]
+        asked = opts.get("encoding")
+        if asked is None:
+            # detection: the first of utf-8, cp1252, cp932, cp949 that decodes the whole file
+            data = (tag + suffix).encode(enc)
+            for e in ("utf-8", "cp1252", "cp932", "cp949"):
+                try:
+                    return ("ok", data.decode(e))
+                except UnicodeDecodeError:
+                    continue
+        try:
+            return ("ok", (tag + suffix).encode(enc).decode(asked))
+        except UnicodeDecodeError:
+            return ("raise", "UnicodeDecodeError")
     return ("ok", tag)
 
 
@@ -395,8 +430,9 @@ def check_pack(ctx, t, path, d, rel, opts_list, calls):
                     ctx.expect(paths == sorted(members), "openpack:wrong-paths", got=paths, want=sorted(members))
                     for sf, p in got[1]:
                         m = members.get(t.norm(p))
-                        if m and sf.title != (m[2] + "/" + m[1]):
-                            ctx.violation("openpack:simfile-path-mismatch", {"path": p, "title": sf.title})
+                        w = expected_load(m[0], m[1], opts, m[2]) if m else None
+                        if w and w[0] == "ok" and sf.title != w[1]:
+                            ctx.violation("openpack:simfile-path-mismatch", {"path": p, "title": sf.title, "want": w[1]})
                 if members and calls:
                     ctx.mon("loader_options_recorder")
                     for fname, kw in calls:
